@@ -262,12 +262,44 @@ CTX_GLOBALS = ('brk_label', 'cont_label', 'current_switch')
 SUB_PARSERS = ('expr', 'const_expr', 'declspec', 'declaration', 'expr_stmt', 'compound_stmt', 'asm_stmt', 'assign', 'conditional', 'typename')
 
 
-def explore_stmt(P):
+RELOPS = ('<', '<=', '>', '>=')
+
+
+def _watch_comparisons(it):
+    """the interpreter drops same-width integer casts, so `(uint64_t)a < (uint64_t)b` and `a < b` give the same term: record, for every relational
+    comparison of opaque values, the C type clang gives its (converted) operands, and keep unsigned comparisons apart from signed ones"""
+    from ..interp import Term, int_type
+    orig = it.binop
+
+    def binop(op, a, b, n):
+        r = orig(op, a, b, n)
+        if op in RELOPS and isinstance(r, Term) and r.op == op and len(n.inner) == 2:
+            ty = int_type(n.inner[0].dtype or n.inner[0].type) or int_type(n.inner[1].dtype or n.inner[1].type)
+            if ty is not None and not ty[1]:
+                r = Term(op + ':unsigned', *r.args)
+            it.ctx.emit('cmp', op, r.args[0], r.args[1], ty, r, n.line)
+        return r
+    it.binop = binop
+
+
+def explore_stmt(P, cat=None):
+    """cat: a chibi.Catalogue -> the controlling expression of the enclosing switch gets a type out of the integer types of the catalogue"""
     from ..lib_parse import TokenModel
+    from ..interp import Cell
     pu = P.unit('parse.c')
     if 'stmt' not in pu.functions:
         raise AnalysisBroken('parse.c: stmt vanished')
     tm_box = [None]
+
+    def enclosing_switch(ctx):
+        sw = Obj('Node', lazy=True, label='sw0')
+        if cat is not None:
+            from ..chibi import type_cell
+            c = Obj('Node', lazy=True, label='sw0.cond')
+            c.fields['ty'] = type_cell(cat, 'sw0.cond.ty', only=INT_CATS)
+            sw.fields['cond'] = c
+            ctx.sw_ty = c.fields['ty']
+        return View(Cell([0, sw], 'current_switch'))
 
     def h_stmt(it, ctx, n, args):
         # recursive statement: record the context the body is parsed in
@@ -294,10 +326,11 @@ def explore_stmt(P):
                                   'is_typename', 'add_type', 'new_cast', 'asm_stmt', 'strndup', 'new_unary', 'copy_type'],
                     cut=cuts,
                     globals_={'brk_label': Sym('brk0', 'char *'), 'cont_label': Sym('cont0', 'char *'),
-                              'current_switch': lambda ctx: View(__import__('sa.interp', fromlist=['Cell']).Cell([0, Obj('Node', lazy=True, label='sw0')], 'current_switch')),
+                              'current_switch': enclosing_switch,
                               'gotos': 0, 'labels': 0})
     tm_box[0] = tm
     it = tm.interp()
+    _watch_comparisons(it)
     from ..interp import _Ref, VarPlace
 
     def mk(ctx):
